@@ -75,10 +75,10 @@ def finalize(agg, tier):
     return r
 
 
-def ack(ptype: int, sign: bool, token: bytes) -> bytes:
+def ack(ptype: int, sign: bool, token: bytes, call_id: int = 1) -> bytes:
     auth = dict(type=10, level=6, pad=0, ctx=0, token=token) if token else None
     return rrpc.encode(
-        dict(ptype=ptype, flags=FL | (4 if sign else 0), call_id=1, auth=auth, max_xmit=5840, max_recv=5840, assoc=1, sec_addr="49668" if ptype == rrpc.BIND_ACK else "", results=[(0, 0, rrpc.NDR64[0], 1), (3, 3, uuid.UUID(int=0), 0)])
+        dict(ptype=ptype, flags=FL | (4 if sign else 0), call_id=call_id, auth=auth, max_xmit=5840, max_recv=5840, assoc=1, sec_addr="49668" if ptype == rrpc.BIND_ACK else "", results=[(0, 0, rrpc.NDR64[0], 1), (3, 3, uuid.UUID(int=0), 0)])
     )
 
 
@@ -197,14 +197,14 @@ def run_request(spec, rec: Recorder):
                             i = state["n"]
                             state["n"] += 1
                             if i == 0:
-                                return [ack(rrpc.BIND_ACK, sign, b"S1")]
+                                return [ack(rrpc.BIND_ACK, sign, b"S1", tr.call_id_of(data))]
                             if i == 1:
-                                return [ack(rrpc.ALTER_CONTEXT_RESP, sign, b"")]
+                                return [ack(rrpc.ALTER_CONTEXT_RESP, sign, b"", tr.call_id_of(data))]
                             state["req"] = data
                             padn = -len(reply_stub) % 16
                             body = reply_stub + b"\xbb" * padn
                             frag = 24 + len(body) + 8 + sig
-                            header = rrpc.header(rrpc.RESPONSE, FL, frag, sig, 1) + struct.pack("<IHBB", len(body), 0, 0, 0)
+                            header = rrpc.header(rrpc.RESPONSE, FL, frag, sig, tr.call_id_of(data)) + struct.pack("<IHBB", len(body), 0, 0, 0)
                             trailer = struct.pack("<BBBBI", 10, 6, padn, 0, 0)
                             st = BT.sign_only if sign else BT.data_readonly
                             res = server.wrap_iov([(st, header), body, (st, trailer), BT.header], encrypt=True, qop=None)
@@ -274,9 +274,9 @@ def run_request_wide(spec, rec: Recorder):
                 i = state["n"]
                 state["n"] += 1
                 if i == 0:
-                    return [ack(rrpc.BIND_ACK, sign, b"S1")]
+                    return [ack(rrpc.BIND_ACK, sign, b"S1", tr.call_id_of(data))]
                 if i == 1:
-                    return [ack(rrpc.ALTER_CONTEXT_RESP, sign, b"")]
+                    return [ack(rrpc.ALTER_CONTEXT_RESP, sign, b"", tr.call_id_of(data))]
                 state["reqs"].append(data)
                 body = b"\x11" * 16
                 header = rrpc.header(rrpc.RESPONSE, FL, 24 + len(body) + 8 + sig, sig, int.from_bytes(data[12:16], "little")) + struct.pack("<IHBB", len(body), 0, 0, 0)
